@@ -63,9 +63,11 @@ def small_case(draw, tier):
                  "values": draw(st.lists(st.sampled_from(["a", "b", "a b", "", marker, "é"]),
                                          min_size=n, max_size=n))}
         cols.append(c)
-    req = draw(st.sampled_from(["none", "subset", "perm"]))
+    req = draw(st.sampled_from(["none", "subset", "perm", "none", "subset", "perm", "empty"]))
     if req == "none":
         attrs = None
+    elif req == "empty":
+        attrs = []
     elif req == "perm":
         attrs = list(draw(st.permutations(names)))
     else:
